@@ -270,7 +270,9 @@ func (d *Decoder) Write(p []byte) (n int, err error) {
 			// reading code earlier should already catch
 			// overlong things and return ErrStringLength,
 			// but keep this as a last resort.
-			const varIntOverhead = 8 // conservative
+			// A varint may legally take up to 10 bytes (non-minimal
+			// encodings), and a field has two of them plus its type byte.
+			const varIntOverhead = 16 // conservative
 			if d.maxStrLen != 0 && int64(len(d.buf)) > 2*(int64(d.maxStrLen)+varIntOverhead) {
 				return 0, ErrStringLength
 			}
